@@ -47,6 +47,7 @@ def make_arg(sel, v, x):
 
 
 NSEL = 14
+XGRID = [0.5, 2.0, -1.5, 1e16, -0.0]
 
 
 def fits(kind, sel, v, x):
@@ -67,7 +68,8 @@ def fits(kind, sel, v, x):
     return False
 
 
-def c18_call(k0: int, k1: int, k2: int, nparams: int, nargs: int, s0: int, s1: int, s2: int, v: int, x: float) -> str:
+def c18_call(k0: int, k1: int, k2: int, nparams: int, nargs: int, s0: int, s1: int, s2: int, v: int, xi: int) -> str:
+    x = XGRID[xi]
     kinds = [k0, k1, k2][:nparams]
     params = [Parameter(f"p{n}", KINDS[k]) for n, k in enumerate(kinds)]
     gd = GateDefinition("g", params)
